@@ -519,7 +519,10 @@ func pad(data []byte, blocklen int) ([]byte, error) {
 		padlen = blocklen
 	}
 	pad := bytes.Repeat([]byte{byte(padlen)}, padlen)
-	return append(data, pad...), nil
+	// copy into a fresh buffer: append(data, ...) would write into the caller's spare capacity
+	out := make([]byte, 0, len(data)+padlen)
+	out = append(out, data...)
+	return append(out, pad...), nil
 }
 
 func unpad(data []byte, blocklen int) ([]byte, error) {
